@@ -23,6 +23,7 @@ const (
 	srcPM   = "pkg/network/portmapping/iptables.go"
 	srcIPT  = "pkg/utils/iptables/iptables.go"
 	srcSave = "pkg/utils/iptables/save_restore.go"
+	srcSrv  = "pkg/galaxy/server.go"
 )
 
 type gen struct {
@@ -625,6 +626,10 @@ func (g *gen) genFacts() (facts, error) {
 	f["cleanDeletesJumpRulesBeforeRestore"] = del != nil && di > li && restIdx > di &&
 		has(del.Body, "h.DeleteRule(utiliptables.TableNAT, kubeHostportsChain, rule...)")
 	f["cleanRestores"] = restIdx >= 0
+	// since a5e6428: a second loop over the ports makes sure every chain exists before the DeleteRule loop
+	ens2, e2i := g.rangeOver(fd, "ports", 1)
+	f["cleanEnsuresChainsFirst"] = ens2 != nil && del != nil && e2i > li && e2i < di && has(ens2.Body, nameOf) &&
+		has(ens2.Body, "h.EnsureChain(utiliptables.TableNAT, hostportChain)") && has(ens2.Body, "return err")
 	f["cleanChainsBeforeRules"] = has(fd.Body, "natLines := append(natChains.Bytes(), natRules.Bytes()...)")
 
 	// --- SetupPortMappingForAllPods
@@ -668,6 +673,91 @@ func (g *gen) genFacts() (facts, error) {
 	f["syncRestoreNoFlush"] = restIdx >= 0
 	f["syncChainsBeforeRules"] = has(fd.Body, "natLines := append(natChains.Bytes(), natRules.Bytes()...)")
 	_ = firstFor
+	return f, nil
+}
+
+// ---- pkg/galaxy/server.go: the per-pod protocol around the port file ---------------------------------------
+
+func serverFacts(repo string) (facts, error) {
+	sp, err := fg.ParseFile(repo, srcSrv)
+	if err != nil {
+		return nil, err
+	}
+	f := facts{}
+	has := func(n ast.Node, sub string) bool { return n != nil && strings.Contains(sp.Src(n), sub) }
+	// setupPortMapping: OpenHostports, SavePort, SetupPortMapping as top-level statements
+	fd, err := sp.Fn("Galaxy", "setupPortMapping")
+	if err != nil {
+		return nil, err
+	}
+	open := sp.StmtIndex(fd.Body, "g.pmhandler.OpenHostports(")
+	save := sp.StmtIndex(fd.Body, "k8s.SavePort(containerID, data)")
+	setup := sp.StmtIndex(fd.Body, "g.pmhandler.SetupPortMapping(req.Ports)")
+	if open < 0 || save < 0 || setup < 0 {
+		return nil, fmt.Errorf("%s: setupPortMapping no longer calls OpenHostports / k8s.SavePort(containerID, data) / SetupPortMapping(req.Ports) at top level", srcSrv)
+	}
+	f["portFileSavedBeforeSetup"] = save < setup && has(fd.Body.List[save], "return")
+	f["hostportsOpenedBeforeSave"] = open < save
+	// requestFunc: ADD failure runs cleanupPortMapping; DEL runs it after CmdDel succeeded
+	fd, err = sp.Fn("Galaxy", "requestFunc")
+	if err != nil {
+		return nil, err
+	}
+	addCleans, delCleans := false, false
+	ast.Inspect(fd.Body, func(n ast.Node) bool {
+		b, ok := n.(*ast.BlockStmt)
+		if !ok {
+			return true
+		}
+		for i := 0; i+1 < len(b.List); i++ {
+			ifs, ok := b.List[i+1].(*ast.IfStmt)
+			if !ok {
+				continue
+			}
+			first := sp.Src(b.List[i])
+			if strings.HasPrefix(first, "err = g.setupPortMapping(req, req.ContainerID,") && sp.Src(ifs.Cond) == "err != nil" &&
+				len(ifs.Body.List) > 0 && sp.Src(ifs.Body.List[0]) == "g.cleanupPortMapping(req)" {
+				addCleans = true
+			}
+			if strings.HasPrefix(first, "err = cniutil.CmdDel(") && sp.Src(ifs.Cond) == "err == nil" &&
+				len(ifs.Body.List) == 1 && sp.Src(ifs.Body.List[0]) == "err = g.cleanupPortMapping(req)" {
+				delCleans = true
+			}
+		}
+		return true
+	})
+	f["addFailureRunsCleanup"] = addCleans
+	f["delRunsCleanup"] = delCleans
+	fd, err = sp.Fn("Galaxy", "cleanupPortMapping")
+	if err != nil {
+		return nil, err
+	}
+	f["cleanupClosesHostports"] = len(fd.Body.List) == 2 && has(fd.Body.List[0], "g.pmhandler.CloseHostports(") &&
+		sp.Src(fd.Body.List[1]) == "return g.cleanIPtables(req.ContainerID)"
+	fd, err = sp.Fn("Galaxy", "cleanIPtables")
+	if err != nil {
+		return nil, err
+	}
+	cons := sp.StmtIndex(fd.Body, "k8s.ConsumePort(containerID)")
+	if cons < 0 {
+		return nil, fmt.Errorf("%s: cleanIPtables no longer reads the port file with k8s.ConsumePort(containerID)", srcSrv)
+	}
+	f["cleanupMissingFileIsNoop"] = cons+1 < len(fd.Body.List) && has(fd.Body.List[cons+1], "os.IsNotExist(err)") &&
+		has(fd.Body.List[cons+1], "return nil")
+	var guard *ast.IfStmt
+	for _, st := range fd.Body.List {
+		if ifs, ok := st.(*ast.IfStmt); ok && sp.Src(ifs.Cond) == "len(ports) != 0" {
+			guard = ifs
+		}
+	}
+	f["cleanupSkipsEmptyRecord"] = guard != nil
+	if guard != nil {
+		c := sp.StmtIndex(guard.Body, "g.pmhandler.CleanPortMapping(ports)")
+		r := sp.StmtIndex(guard.Body, "k8s.RemovePortFile(containerID)")
+		f["cleanupRemovesFileAfterClean"] = c >= 0 && r > c && has(guard.Body.List[c], "return err")
+	} else {
+		f["cleanupRemovesFileAfterClean"] = false
+	}
 	return f, nil
 }
 
@@ -732,6 +822,13 @@ func generate(repo string) (map[string]string, error) {
 	if err != nil {
 		return nil, err
 	}
+	sf, err := serverFacts(repo)
+	if err != nil {
+		return nil, err
+	}
+	for k, v := range sf {
+		fs[k] = v
+	}
 	// the mark value is the last word of the mark rule (a literal)
 	last := mark[len(mark)-1]
 	if len(last) != 1 || last[0].kind != "lit" {
@@ -740,7 +837,7 @@ func generate(repo string) (map[string]string, error) {
 
 	var b strings.Builder
 	b.WriteString(fg.Header("port-mapping constants, hash-input shape, rule templates and generator shape facts (M6 / C14)",
-		srcPM, srcIPT, srcSave))
+		srcPM, srcIPT, srcSave, srcSrv))
 	b.WriteString("namespace Galaxy.Generated.Netfilter\n\n")
 	b.WriteString("/-- one piece of a generated rule word: a literal or a field of the port being mapped -/\n")
 	b.WriteString("inductive Piece where\n  | lit (s : String)\n  | podName | hostPort | containerPort | podIP | hostIP\n  | proto   -- strings.ToLower(port.Protocol)\n  | chain   -- hostportChainName(port, port.PodName)\n  deriving DecidableEq, Repr\n\n")
@@ -782,7 +879,7 @@ func generate(repo string) (map[string]string, error) {
 		bc = append(bc, fg.LeanStr(x))
 	}
 	fmt.Fprintf(&b, "def basicRuleChains : List String := [%s]\n\n", strings.Join(bc, ", "))
-	b.WriteString("-- shape facts of SetupPortMapping / CleanPortMapping / SetupPortMappingForAllPods\n")
+	b.WriteString("-- shape facts of SetupPortMapping / CleanPortMapping / SetupPortMappingForAllPods and of the per-pod\n-- protocol of pkg/galaxy/server.go (setupPortMapping / cleanupPortMapping / cleanIPtables / requestFunc)\n")
 	keys := make([]string, 0, len(fs))
 	for k := range fs {
 		keys = append(keys, k)
